@@ -611,7 +611,7 @@ func c09FetchItem(seq string, v c09Val) string {
 			t, err := time.Parse("_2-Jan-2006 15:04:05 -0700", val.s)
 			if err != nil {
 				atts = append(atts, "d?")
-			} else if t.Year() >= 2025 {
+			} else if d := time.Since(t); d > -48*time.Hour && d < 48*time.Hour { // appended without a date: time.Now()
 				atts = append(atts, "dnow")
 			} else {
 				_, off := t.Zone()
